@@ -10,6 +10,7 @@ independent reachability computation.
 from __future__ import annotations
 
 import itertools
+import json
 import warnings
 
 from . import core
@@ -243,6 +244,53 @@ def model_graphs():
     return out
 
 
+def incremental_definitions(chk, only=None):
+    """The graph is a function of the definitions, not of the way the collection of definitions was assembled: the same
+    definitions given in two or three instalments (the collection being read in between, as `dict(specs)` / `.items()` do) must
+    give exactly the graph obtained from the definitions given at once."""
+    import leaspy.models  # noqa
+    from leaspy.models import model_factory
+    from leaspy.variables.dag import VariablesDAG
+    for name, kw in (MODEL_KINDS if only is None else [(only[0], only[1])]):
+        try:
+            m = model_factory(name, **kw)
+            specs = m.get_variables_specs()
+            ref = VariablesDAG.from_dict(specs)
+            items = list(specs.data.items())
+        except Exception:  # noqa  (reported by model_graphs)
+            continue
+        want = (tuple(ref.sorted_variables_names), {n: tuple(v) for n, v in ref.sorted_children.items()},
+                {n: tuple(v) for n, v in ref.sorted_ancestors.items()}, {n: frozenset(v) for n, v in ref.direct_ancestors.items()})
+        cuts = sorted(set(chk.rng.sample(range(1, len(items)), min(len(items) - 1, 6 if chk.tier == "quick" else 16)))) if len(items) > 1 else []
+        if only is not None:
+            cuts = [only[2]]
+        for cut in cuts:
+            case = {"model": name, "kw": kw, "instalments": [cut, len(items) - cut]}
+            try:
+                part = type(specs)()
+                for k, v in items[:cut]:
+                    if k not in part.data:   # implicit companions (statistics, regularity terms) come with their owner
+                        part[k] = v
+                list(part.items())          # the collection is read while incomplete (automatic variables included)
+                _ = dict(part)
+                for k, v in items[cut:]:
+                    if k not in part.data:
+                        part[k] = v
+                dag = VariablesDAG.from_dict(part)
+                got = (tuple(dag.sorted_variables_names), {n: tuple(v) for n, v in dag.sorted_children.items()},
+                       {n: tuple(v) for n, v in dag.sorted_ancestors.items()}, {n: frozenset(v) for n, v in dag.direct_ancestors.items()})
+            except Exception as e:  # noqa
+                chk.impl_failure(case, f"definitions given in two instalments are refused: {type(e).__name__}: {str(e)[:150]}")
+                continue
+            if got != want:
+                what = ("order" if got[0] != want[0] else "dependents" if got[1] != want[1] else "dependencies" if got[2] != want[2]
+                        else "direct dependencies")
+                bad = [n for n in want[3] if got[3].get(n) != want[3][n]][:3]
+                chk.impl_failure(case, f"the graph of definitions given in two instalments (first {cut}, read, then the rest) differs from the "
+                                       f"graph of the same definitions given at once: {what}" + (f" of {bad}" if bad else ""))
+            chk.case(("instalments", name, json.dumps(kw, sort_keys=True), cut), nontrivial=True, tags={"part": "instalments", "model": name})
+
+
 def run(chk: core.Check):
     env = _imports()
     rng = chk.rng
@@ -278,6 +326,7 @@ def run(chk: core.Check):
             a, b = sorted(rng.sample(range(k), 2))
             anc2[names[b]].add(names[a])
         cases.append((names, anc2, "chain-shortcuts"))
+    incremental_definitions(chk)
     mg = model_graphs()
     for name, kw, g, err in mg:
         if g is None:
@@ -330,6 +379,9 @@ def run(chk: core.Check):
 def replay(chk: core.Check, payload):
     env = _imports()
     case = payload.get("case") or (payload.get("disagreements") or [{}])[0].get("case")
+    if case and "instalments" in case:
+        incremental_definitions(chk, only=(case["model"], case["kw"], case["instalments"][0]))
+        return
     if not case or "names" not in case:
         chk.note("replay file has no graph case")
         return
